@@ -790,6 +790,10 @@ class Interp:
         if isinstance(val, StructVal):
             p, _sz = self.addr(n, env, fn, depth)
             if p is not None:
+                # a struct assignment through a pointer is a write of the whole object
+                wsz = getattr(val, "size", None) or _sz
+                if isinstance(wsz, int) and n.k != "DeclRefExpr":
+                    self.access(p, wsz, "w", node)
                 self.store_struct(p, val)
             return
         if n.k == "DeclRefExpr" and n.get("d") is not None and n.get("dk") in ("local", "param", "slocal"):
